@@ -117,7 +117,7 @@ def _gen_histories(rng, tier):
     quick = tier == "quick"
     out = []
     warm = lambda edits: [([rng.randrange(64) for _ in range(3)] if rng.random() < 0.5 else []) for _ in edits]
-    kinds = ("move", "move", "reattach", "reorder", "failmove", "hookmove", "hookkids")
+    kinds = ("move", "move", "reattach", "reorder", "failmove", "hookmove", "hookkids", "delre")
     # corpus: a refused re-parenting of a LEFT / RIGHT child of a BinaryNode (full target, loop), then all reads
     full = ("1", {}, ("2", {}, ("4", {}, None, None), None), ("3", {}, ("5", {}, None, None), ("6", {}, None, None)))
     for e in (["bfail", 1, 3], ["bfail", 2, 3], ["bfail", 4, 3], ["bfail", 1, 2], ["bfail", 5, 0], ["bfail", 6, 0]):
